@@ -104,3 +104,57 @@ Qed.
 Example unescaped_brace_fails : py_format detail_indent [99; 123; 120; 125]%N = FErr   (* c{x} *)
   /\ py_format detail_indent [125]%N = FErr /\ py_format detail_indent [123; 48; 125]%N = FErr.
 Proof. vm_compute. repeat split; reflexivity. Qed.
+
+(** ** whether a template renders does not depend on the indent text *)
+Definition same_kind (a b : fres) : Prop :=
+  match a, b with FOk _, FOk _ => True | FErr, FErr => True | FOther, FOther => True | _, _ => False end.
+Lemma same_kind_refl a : same_kind a a.
+Proof. destruct a; exact I. Qed.
+Lemma same_kind_fcons c a b : same_kind a b -> same_kind (fcons c a) (fcons c b).
+Proof. destruct a, b; simpl; auto. Qed.
+Lemma same_kind_fapp p q a b : same_kind a b -> same_kind (fapp p a) (fapp q b).
+Proof. destruct a, b; simpl; auto. Qed.
+
+Lemma fmt_kind_indep i1 i2 : forall s st, same_kind (fmt i1 st s) (fmt i2 st s).
+Proof.
+  induction s as [|c s IH]; intros st.
+  - destruct st; exact I.
+  - simpl. destruct st as [| |n|].
+    + destruct (c =? c_open)%N; [apply IH|]. destruct (c =? c_close)%N; [apply IH|]. apply same_kind_fcons, IH.
+    + destruct (c =? c_open)%N; [apply same_kind_fcons, IH|]. destruct (c =? c_close)%N; [exact I | apply IH].
+    + destruct (c =? c_close)%N.
+      * destruct (field_kind_of (rev n)); [apply same_kind_fapp, IH | exact I | exact I].
+      * destruct (c =? c_open)%N; [destruct (existsb special n); exact I | apply IH].
+    + destruct (c =? c_close)%N; [apply same_kind_fcons, IH | exact I].
+Qed.
+
+Definition renders (t : str) : bool := match py_format [] t with FOk _ => true | _ => false end.
+
+Lemma renders_any_indent t ind : renders t = true -> exists r, py_format ind t = FOk r.
+Proof.
+  unfold renders, py_format. intros H. pose proof (fmt_kind_indep ind [] t SNormal) as K.
+  destruct (fmt [] SNormal t); try discriminate. destruct (fmt ind SNormal t) as [r| |]; [eauto | destruct K | destruct K].
+Qed.
+
+(** text without braces is its own rendering (numbers, the output of a conversion specification of the % operator) *)
+Definition brace_free (t : str) : bool := forallb (fun c => negb ((c =? c_open)%N || (c =? c_close)%N)) t.
+Lemma brace_free_renders ind t : brace_free t = true -> py_format ind t = FOk t.
+Proof.
+  unfold py_format. induction t as [|c t IH]; intros H; [reflexivity|].
+  simpl in H. apply andb_true_iff in H as [Hc Ht]. apply negb_true_iff, orb_false_iff in Hc as [H1 H2].
+  simpl. rewrite H1, H2, (IH Ht). reflexivity.
+Qed.
+
+(** a message assembled in any order and number from fragments that render, the indent placeholder, escaped text
+    and brace-free text renders *)
+Theorem assembled_message_renders (lits : list str) :
+  forallb renders lits = true ->
+  forall ind ps,
+    (forall t, In (PLit t) ps -> In t lits \/ brace_free t = true) ->
+    py_format ind (concat (map piece_tmpl ps)) = FOk (concat (map (piece_text ind) ps)).
+Proof.
+  intros HL ind ps H. apply message_renders. intros t Hin.
+  destruct (H t Hin) as [Hl | Hb].
+  - apply renders_any_indent. rewrite forallb_forall in HL. apply HL, Hl.
+  - exists t. apply brace_free_renders, Hb.
+Qed.
